@@ -492,7 +492,7 @@ def boundaries_and_declarators(chk, b, wd, fam, variants, tiny, quick, rnd, oldl
     nsmall = 1 if quick else 5
     qlevels = [None] if quick else [None, "0", "3"]
     for (p, style, names, real) in [(tp, "plain", None, None) for tp in tiny] + [v for v in variants if v[1] != "crafted"][:nsmall]:
-        for q in qlevels:
+        for q in qlevels + (["3"] if "3" not in qlevels and "bi" in p.get("feat", []) and style == "plain" and names is None else []):
             units.append({"id": "%s@Q%s" % (p["id"], q if q is not None else "default"), "text": render.render(p, names),
                           "qopts": ["-Q" + q] if q is not None else [], "exp": fam.exp[p["id"]], "family": "gen"})
     for k, dp in enumerate(decl_progs[:1 if quick else 4]):
@@ -765,7 +765,10 @@ def run(chk, tier):
     colp = cn.collision_program()
     # small units for the split boundaries (a unit of S statements under -Csmax=1 is S files)
     tiny = progen.generate((chk.seed + 16) % 1000003 + 500, 2 if quick else 5, features=["fun"]) + \
-        progen.generate((chk.seed + 16) % 1000003 + 501, 1 if quick else 4, features=["fun", "while", "rec"])
+        progen.generate((chk.seed + 16) % 1000003 + 501, 1 if quick else 4, features=["fun", "while", "rec"]) + \
+        progen.generate((chk.seed + 16) % 1000003 + 502, 1 if quick else 3, features=["fun", "bi"])
+    # (the last group has Integer literals: folded at -Q3 they become big-integer constants of the unit, which a split
+    #  unit defines in its first file and must declare in the common header)
     tiny_ids = set(p["id"] for p in tiny)
     fam = progcheck.Family(chk, progs + tiny + [colp], "gen", workers=vlib.NCPU, timeout=1500)
     replayable = [p for p in fam.replayable if p["id"] not in tiny_ids]
